@@ -7,11 +7,15 @@ the matrix with the quotes and their reciprocals.  Theorems about VALUES are ove
 definitionally the instance the model uses (last example).  A quote set is described by a
 *potential* `u`: every quote `(a, b, x)` has `x = u a / u b` — exactly what a tree of quotes admits.
 
-PARTIAL (DESIGN.md "C09 partial"): that the triangulation SUCCEEDS for every tree, and FAILS for every
-right-count quote set that is not a tree, is not yet a theorem; the correspondence run (random trees by
-Prüfer sequences, n = 2..12, every base, malformed stream) covers it.
+COMPLETENESS / REJECTION (`C09_complete`, `C09_disconnected_rejected`): the triangulation returns a
+result exactly when the quoted pairs CONNECT all n currencies — for n − 1 quotes that is exactly "the
+quotes form a tree"; a right-count quote set with a cycle leaves some currency unconnected and is
+rejected.  (The graph fact "n − 1 edges on n vertices: connected ⇔ acyclic" is standard and not
+restated; connectivity is what the theorems use.)
 -/
-import RateslibModel.Proofs.FXInit
+import RateslibModel.Proofs.FXComplete
+import Mathlib.Tactic.IntervalCases
+import Mathlib.Tactic.Tauto
 namespace Rateslib
 
 section Field
@@ -53,6 +57,33 @@ theorem C09_order_base_irrelevant (u : Nat → K) (hu : ∀ i, u i ≠ 0) (n : N
 end Field
 
 variable {τ : Type} [FxOps τ]
+
+/-- which pairs the seed populates: the diagonal and every quoted pair, both ways round -/
+theorem C09_seed_edges (pairs : List (Nat × Nat × τ)) (zero : τ) (i j : Nat) :
+    (initArr pairs zero).edges i j = true ↔
+      i = j ∨ ∃ p ∈ pairs, (i = p.1 ∧ j = p.2.1) ∨ (i = p.2.1 ∧ j = p.1) :=
+  init_edges pairs zero i j
+
+/-- COMPLETE: if the quoted pairs connect all `n` currencies (every set of currencies that is closed
+under the quoted pairs and non-empty is everything) the triangulation terminates — within the fuel the
+model gives it — with a result; by `C09_arbitrage_free` all n × n rates are then populated and right. -/
+theorem C09_complete (n : Nat) (pairs : List (Nat × Nat × τ)) (zero : τ)
+    (hconn : Connected n (initArr pairs zero)) :
+    ∃ a', fill n (fillFuel n) (initArr pairs zero) [] = some a' := by
+  apply fill_complete n (fillFuel n) _ [] (init_symm pairs zero) (init_refl n pairs zero) hconn
+  · intro p hp; cases hp
+  · have : inPrev n [] = 0 := by simp [inPrev]
+    rw [this]
+    exact fillFuel_enough n _
+
+/-- REJECTED: if some non-empty set of currencies is closed under the quoted pairs and misses a
+currency (the quotes do not connect the market: under-specified, or the right number of quotes but
+with a cycle), no result is ever returned. -/
+theorem C09_disconnected_rejected (n : Nat) (pairs : List (Nat × Nat × τ)) (zero : τ) (S : Nat → Prop)
+    (hS : Closed n (initArr pairs zero) S) (i0 j0 : Nat) (hi0 : i0 < n) (hj0 : j0 < n) (hin : S i0)
+    (hout : ¬ S j0) (fuel : Nat) :
+    fill n fuel (initArr pairs zero) [] = none :=
+  fill_none_of_disconnected n S i0 j0 hi0 hj0 hin hout fuel _ [] (init_symm pairs zero) hS
 
 /-- Quoted pairs are returned exactly as quoted and the diagonal exactly as 1 (every element type,
 f64 itself included): the triangulation never rewrites an entry that is already populated. -/
@@ -132,5 +163,24 @@ usdjpy = 4 admit the potential u = (8, 4, 1); the triangulation completes and ev
 ratio of potentials.  At `K = ℝ`/`ℚ` the field arithmetic is the arithmetic the model uses. -/
 example : (fill 3 (fillFuel 3) (initArr [(0, 1, (2 : ℚ)), (1, 2, 4)] 0) []).map
     (fun a => (a.fx 0 2, a.fx 2 0, a.fx 0 1, a.fx 1 1)) = some (8, 1 / 8, 2, 1) := by decide +kernel
+
+/-- the hypothesis of `C09_complete` is met by the chain eur–usd–jpy … -/
+example : Connected 3 (initArr [(0, 1, (2 : ℚ)), (1, 2, 4)] 0) := by
+  intro S hS hne j hj
+  obtain ⟨i, hi, hSi⟩ := hne
+  have e01 : S 0 ↔ S 1 := hS 0 1 (by decide) (by decide) (by decide)
+  have e12 : S 1 ↔ S 2 := hS 1 2 (by decide) (by decide) (by decide)
+  interval_cases i <;> interval_cases j <;> tauto
+
+/-- … and that of `C09_disconnected_rejected` by two quotes on four currencies that leave the pair
+{2, 3} apart from {0, 1} (eurusd and gbpjpy: right count for 3 currencies, not for these 4 — and also
+the shape a cycle leaves behind) -/
+example : Closed 4 (initArr [(0, 1, (2 : ℚ)), (2, 3, 4)] 0) (fun i => i < 2) := by
+  intro i j hi hj hij
+  rw [C09_seed_edges] at hij
+  rcases hij with rfl | ⟨p, hp, h⟩
+  · exact Iff.rfl
+  · simp only [List.mem_cons, List.mem_nil_iff, or_false] at hp
+    rcases hp with rfl | rfl <;> rcases h with ⟨rfl, rfl⟩ | ⟨rfl, rfl⟩ <;> simp
 
 end Rateslib
